@@ -37,6 +37,26 @@ static double nowS() {
     return std::chrono::duration<double>(std::chrono::steady_clock::now().time_since_epoch()).count();
 }
 
+// An assertion (CriticalFailure) thrown while another one unwinds, or out of a destructor, ends in std::terminate:
+// say which assertion it was, so that the crash gets a signature of its own.
+#include "libvpsc/assertions.h"
+static void simTerminate() {
+    try {
+        std::exception_ptr e = std::current_exception();
+        if (e) std::rethrow_exception(e);
+        fprintf(stderr, "SIMTERMINATE: no-active-exception\n");
+    } catch (vpsc::CriticalFailure &f) {
+        const char *file = strstr(f.file, "lib") ? strstr(f.file, "lib") : f.file;
+        fprintf(stderr, "SIMTERMINATE: assert@%s:%d\n", file, f.line);
+    } catch (std::exception &e) {
+        fprintf(stderr, "SIMTERMINATE: std::exception\n");
+    } catch (...) {
+        fprintf(stderr, "SIMTERMINATE: unknown\n");
+    }
+    fflush(stderr);
+    abort();
+}
+
 static Json runWorldHere(const Json &plan, bool trace) {
     World *w = new World();
     w->log.trace = trace;
@@ -136,6 +156,7 @@ static Json execPlan(const Json &plan, double timeoutS, bool trace) {
         dup2(efd, 2);
         { int nul = open("/dev/null", O_WRONLY); if (nul >= 0) { dup2(nul, 1); close(nul); } }   // the libraries print diagnostics to stdout
         struct rlimit rl = {0, 0}; setrlimit(RLIMIT_CORE, &rl);
+        std::set_terminate(simTerminate);
         Json r;
         try {
             r = runWorldHere(plan, trace);
@@ -201,7 +222,10 @@ static Json execPlan(const Json &plan, double timeoutS, bool trace) {
         if (!have) {
             Json j = Json::obj();
             j.set("prop", "C15"); j.set("clause", status == "timeout" ? "termination" : "crash");
-            j.set("sig", status == "timeout" ? "timeout" : "crash:" + status);
+            std::string csig = status == "timeout" ? "timeout" : "crash:" + status;
+            size_t tp = err.find("SIMTERMINATE: ");
+            if (tp != std::string::npos) { std::string t = err.substr(tp + 14); t = t.substr(0, t.find('\n')); csig = "crash:terminate:" + t; }
+            j.set("sig", csig);
             j.set("detail", err.substr(0, 400)); j.set("session", -1); j.set("op", -1);
             v.push(j);
         }
